@@ -40,7 +40,7 @@ class key_from_int:
                 and k.public_byte == (k.public_compressed_byte if compressed else k.public_uncompressed_byte) and k.is_private is True)
 
     def sample(rng):
-        return {'self': None, 'import_key': rng.choice([1, 2, N - 1, N, N + 1, 2 ** 256 - 1, rng.randrange(1, N), rng.getrandbits(rng.choice([8, 64, 200, 256]))]),
+        return {'self': None, 'import_key': rng.choice([1, 2, N - 1, N, N + 1, 2 ** 256 - 1, rng.randrange(1, N), max(1, rng.getrandbits(rng.choice([8, 64, 200, 256])))]),
                 'compressed': rng.random() < 0.5}
 
 
